@@ -557,7 +557,7 @@ func runPxScenario(t *testing.T, idx int, kind string, sc pxScenario, em *Emitte
 		tags = append(tags, "leaked-at-end")
 	}
 	em.Emit(Rec{Idx: idx, Kind: kind, Desc: sc, Obs: obsList, Tags: tags,
-		Coq: fmt.Sprintf("%s %d %d %d %s %s", map[bool]string{false: "CProxy", true: "CProxyLoose"}[kind == "proxy-loose"],
+		Coq: fmt.Sprintf("%s %d %d %d %s %s", map[string]string{"proxy": "CProxy", "proxy-loose": "CProxyLoose", "proxy-red": "CProxyRed"}[kind],
 			pxProxyName, buf, sc.Icp, coqList(coqSteps), coqList(coqObs))})
 	em.Marker("end", idx)
 }
